@@ -32,10 +32,35 @@ func die(format string, args ...any) {
 	os.Exit(1)
 }
 
+// canon renames the runner's pending-command field to the name the facts are written in: the field is recognised by its
+// type (the only `<-chan error` field of DialogueRunner), not by what it is called
+var canon = strings.NewReplacer()
+
 func src(n ast.Node) string {
 	var b strings.Builder
 	printer.Fprint(&b, fset, n)
-	return strings.Join(strings.Fields(b.String()), " ")
+	return canon.Replace(strings.Join(strings.Fields(b.String()), " "))
+}
+
+func detectPendingField(f *ast.File) {
+	ast.Inspect(f, func(n ast.Node) bool {
+		ts, ok := n.(*ast.TypeSpec)
+		if !ok || ts.Name.Name != "DialogueRunner" {
+			return true
+		}
+		st, ok := ts.Type.(*ast.StructType)
+		if !ok {
+			return true
+		}
+		for _, fl := range st.Fields.List {
+			var b strings.Builder
+			printer.Fprint(&b, fset, fl.Type)
+			if b.String() == "<-chan error" && len(fl.Names) == 1 {
+				canon = strings.NewReplacer("."+fl.Names[0].Name, ".commandErrChan")
+			}
+		}
+		return false
+	})
 }
 
 func parse(path string) *ast.File {
@@ -236,6 +261,7 @@ func main() {
 	}
 	cs := parse(filepath.Join(root, "command_storer.go"))
 	rn := parse(filepath.Join(root, "runner.go"))
+	detectPendingField(rn)
 
 	// a channel made at package level (hoisted out of every function)
 	var packageLevel []madeChan
